@@ -51,6 +51,7 @@ inductive Ev where
   | replyerr (ep : Nat) (seq : Int) (cls : String)   -- the server logged that it could not send a reply
   | inj (ep : Nat) (kind : String)   -- a scripted frame injected into the traffic towards `ep`
   | lk (ep : Nat) | dr (ep : Nat)   -- the receive loop of `ep` is about to look a reply's call up / to decode into its result
+  | wrp (ep n total : Nat)   -- the wire accepted only n of the total bytes of one Write
   | badarg (c : Nat)   -- the argument of this caller's RPC cannot be encoded
   | regb (ep : Nat) | rege (ep : Nat)   -- a protocol registered while the transport runs
   | harness (msg : String)
@@ -148,6 +149,7 @@ def parseEv (toks : List String) : Ev :=
   | ["stuck", g, s] => .stuck g s
   | ["inj", ep, k] => .inj (natOr ep 0) k
   | ["badarg", c] => .badarg (natOr c 0)
+  | ["wrp", ep, n, t] => .wrp (natOr ep 0) (natOr n 0) (natOr t 0)
   | ["lk", ep] => .lk (natOr ep 0)
   | ["dr", ep] => .dr (natOr ep 0)
   | ["regb", ep] => .regb (natOr ep 0)
